@@ -85,6 +85,14 @@ func c03Kinds() []operandKind {
 		mk("[0,2]", "[0,2]"),
 		mk("{}", "{}"),
 		mk(`{"a":1}`, `{"a":1}`),
+		// null nested inside a container (literal and read from the input): the
+		// container is selected, not the null; arrays of only falsy / truthy members
+		mk(`[1,null]`, `[1,null]`),
+		mk(`{"x":null}`, `{"x":null}`),
+		mk(`[null]`, `[null]`),
+		mk(`[0]`, `[0]`),
+		mk(`[false,0,""]`, `[false,0,""]`),
+		mk(`[false,"x"]`, `[false,"x"]`),
 		{"$sum", func() *ast.Node { return ast.VarN("sum") }, nil},
 		{"lambda", func() *ast.Node { return ast.LambdaN([]string{"x"}, "", ast.VarN("x")) }, nil},
 		{"missing", func() *ast.Node { return ast.NameN("zz") }, nil},
